@@ -159,16 +159,24 @@ package jsonpath
 // WF of the syntax tree: WFnode(v) ==> WFnodeDef(v), unfolded once per method for its receiver
 // (clause `unfold`), never by a quantified axiom (that would be a matching loop along `next`).
 //@ spec WFunionAt(u *syntaxUnionQualifier) bool = WFbasic(u.syntaxBasicNode) && errRT(u.syntaxBasicNode) && wf(u.subscripts) && (arr(u.subscripts) == 0 || RO(u.subscripts)) && (forall k {elemAt(u.subscripts, k)} :: off(u.subscripts) <= k && k < off(u.subscripts) + len(u.subscripts) ==> elemAt(u.subscripts, k) != nil && WFsub(elemAt(u.subscripts, k)))
-//@ spec WFrootDef(n *syntaxRootIdentifier) bool = n != nil && height(n) == hgt(n.syntaxBasicNode) && WFbasic(n.syntaxBasicNode) && (chainSingle(n) ==> singleNext(n.syntaxBasicNode))
-//@ spec WFcurrentDef(n *syntaxCurrentRootIdentifier) bool = n != nil && height(n) == hgt(n.syntaxBasicNode) && WFbasic(n.syntaxBasicNode) && (chainSingle(n) ==> singleNext(n.syntaxBasicNode))
-//@ spec WFsingleDef(n *syntaxChildSingleIdentifier) bool = n != nil && height(n) == hgt(n.syntaxBasicNode) && WFbasic(n.syntaxBasicNode) && errRT(n.syntaxBasicNode) && (chainSingle(n) ==> singleNext(n.syntaxBasicNode))
-//@ spec WFwildcardDef(n *syntaxChildWildcardIdentifier) bool = n != nil && height(n) == hgt(n.syntaxBasicNode) && WFbasic(n.syntaxBasicNode) && errRT(n.syntaxBasicNode) && !chainSingle(n)
-//@ spec WFunionDef(n *syntaxUnionQualifier) bool = n != nil && height(n) == hgt(n.syntaxBasicNode) && WFunionAt(n) && (chainSingle(n) ==> singleNext(n.syntaxBasicNode) && len(n.subscripts) == 1 && isType(elemAt(n.subscripts, off(n.subscripts)), *syntaxIndexSubscript))
-//@ spec WFmultiDef(n *syntaxChildMultiIdentifier) bool = n != nil && height(n) == hgt(n.syntaxBasicNode) && WFbasic(n.syntaxBasicNode) && errRT(n.syntaxBasicNode) && wf(n.identifiers) && (arr(n.identifiers) == 0 || RO(n.identifiers)) && (forall k {elemAt(n.identifiers, k)} :: off(n.identifiers) <= k && k < off(n.identifiers) + len(n.identifiers) ==> elemAt(n.identifiers, k) != nil && WFnode(elemAt(n.identifiers, k)) && height(elemAt(n.identifiers, k)) < height(n) && (isType(elemAt(n.identifiers, k), *syntaxChildSingleIdentifier) ==> asType(elemAt(n.identifiers, k), *syntaxChildSingleIdentifier) != nil)) && (n.isAllWildcard ==> WFunionAt(n.unionQualifier) && WFnode(n.unionQualifier) && height(n.unionQualifier) < height(n)) && !chainSingle(n)
-//@ spec WFrecursiveDef(n *syntaxRecursiveChildIdentifier) bool = n != nil && height(n) == hgt(n.syntaxBasicNode) && WFbasic(n.syntaxBasicNode) && errRT(n.syntaxBasicNode) && n.syntaxBasicNode.next != nil && !chainSingle(n)
-//@ spec WFfilterDef(n *syntaxFilterQualifier) bool = n != nil && height(n) == hgt(n.syntaxBasicNode) && WFbasic(n.syntaxBasicNode) && errRT(n.syntaxBasicNode) && n.query != nil && WFquery(n.query) && 0 <= qheight(n.query) && qheight(n.query) < height(n) && !chainSingle(n)
-//@ spec WFffuncDef(n *syntaxFilterFunction) bool = n != nil && height(n) == hgt(n.syntaxBasicNode) && WFbasic(n.syntaxBasicNode) && errRT(n.syntaxBasicNode) && n.function != nil && (chainSingle(n) ==> singleNext(n.syntaxBasicNode))
-//@ spec WFafuncDef(n *syntaxAggregateFunction) bool = n != nil && height(n) == hgt(n.syntaxBasicNode) && WFbasic(n.syntaxBasicNode) && errRT(n.syntaxBasicNode) && n.function != nil && n.param != nil && WFnode(n.param) && height(n.param) < height(n) && (chainSingle(n) ==> singleNext(n.syntaxBasicNode))
+// RL equations of the step kinds (C01): root and current root apply the continuation to the root / the current value;
+// a name applies it to the member of that name when the current value is an object that has it, and selects nothing
+// otherwise; a filter function applies it to the function's result unless the function fails.
+//@ spec RLrootDef(n *syntaxRootIdentifier) bool = RLok(n) ==> Kok(n.syntaxBasicNode) && (forall r Val, c Val {RLn(n, r, c)} :: RLn(n, r, c) == Kn(n.syntaxBasicNode, r, r)) && (forall r Val, c Val, i {RLv(n, r, c, i)} :: RLv(n, r, c, i) == Kv(n.syntaxBasicNode, r, r, i))
+//@ spec RLcurrentDef(n *syntaxCurrentRootIdentifier) bool = RLok(n) ==> Kok(n.syntaxBasicNode) && (forall r Val, c Val {RLn(n, r, c)} :: RLn(n, r, c) == Kn(n.syntaxBasicNode, r, c)) && (forall r Val, c Val, i {RLv(n, r, c, i)} :: RLv(n, r, c, i) == Kv(n.syntaxBasicNode, r, c, i))
+//@ spec hasMember(c any, k string) bool = isType(c, map[string]interface{}) && asType(c, map[string]interface{}) != nil && has(asType(c, map[string]interface{}), k)
+//@ spec RLsingleDef(n *syntaxChildSingleIdentifier) bool = RLok(n) ==> Kok(n.syntaxBasicNode) && (forall r Val, c Val {RLn(n, r, c)} :: RLn(n, r, c) == (hasMember(c, n.identifier) ? Kn(n.syntaxBasicNode, r, asType(c, map[string]interface{})[n.identifier]) : 0)) && (forall r Val, c Val, i {RLv(n, r, c, i)} :: hasMember(c, n.identifier) ==> RLv(n, r, c, i) == Kv(n.syntaxBasicNode, r, asType(c, map[string]interface{})[n.identifier], i))
+//@ spec RLffuncDef(n *syntaxFilterFunction) bool = RLok(n) ==> Kok(n.syntaxBasicNode) && (forall r Val, c Val {RLn(n, r, c)} :: RLn(n, r, c) == (ffErr(n.function, c) == nil ? Kn(n.syntaxBasicNode, r, ffRes(n.function, c)) : 0)) && (forall r Val, c Val, i {RLv(n, r, c, i)} :: ffErr(n.function, c) == nil ==> RLv(n, r, c, i) == Kv(n.syntaxBasicNode, r, ffRes(n.function, c), i))
+//@ spec WFrootDef(n *syntaxRootIdentifier) bool = RLrootDef(n) && n != nil && height(n) == hgt(n.syntaxBasicNode) && WFbasic(n.syntaxBasicNode) && (chainSingle(n) ==> singleNext(n.syntaxBasicNode))
+//@ spec WFcurrentDef(n *syntaxCurrentRootIdentifier) bool = RLcurrentDef(n) && n != nil && height(n) == hgt(n.syntaxBasicNode) && WFbasic(n.syntaxBasicNode) && (chainSingle(n) ==> singleNext(n.syntaxBasicNode))
+//@ spec WFsingleDef(n *syntaxChildSingleIdentifier) bool = RLsingleDef(n) && n != nil && height(n) == hgt(n.syntaxBasicNode) && WFbasic(n.syntaxBasicNode) && errRT(n.syntaxBasicNode) && (chainSingle(n) ==> singleNext(n.syntaxBasicNode))
+//@ spec WFwildcardDef(n *syntaxChildWildcardIdentifier) bool = !RLok(n) && n != nil && height(n) == hgt(n.syntaxBasicNode) && WFbasic(n.syntaxBasicNode) && errRT(n.syntaxBasicNode) && !chainSingle(n)
+//@ spec WFunionDef(n *syntaxUnionQualifier) bool = !RLok(n) && n != nil && height(n) == hgt(n.syntaxBasicNode) && WFunionAt(n) && (chainSingle(n) ==> singleNext(n.syntaxBasicNode) && len(n.subscripts) == 1 && isType(elemAt(n.subscripts, off(n.subscripts)), *syntaxIndexSubscript))
+//@ spec WFmultiDef(n *syntaxChildMultiIdentifier) bool = !RLok(n) && n != nil && height(n) == hgt(n.syntaxBasicNode) && WFbasic(n.syntaxBasicNode) && errRT(n.syntaxBasicNode) && wf(n.identifiers) && (arr(n.identifiers) == 0 || RO(n.identifiers)) && (forall k {elemAt(n.identifiers, k)} :: off(n.identifiers) <= k && k < off(n.identifiers) + len(n.identifiers) ==> elemAt(n.identifiers, k) != nil && WFnode(elemAt(n.identifiers, k)) && height(elemAt(n.identifiers, k)) < height(n) && (isType(elemAt(n.identifiers, k), *syntaxChildSingleIdentifier) ==> asType(elemAt(n.identifiers, k), *syntaxChildSingleIdentifier) != nil)) && (n.isAllWildcard ==> WFunionAt(n.unionQualifier) && WFnode(n.unionQualifier) && height(n.unionQualifier) < height(n)) && !chainSingle(n)
+//@ spec WFrecursiveDef(n *syntaxRecursiveChildIdentifier) bool = !RLok(n) && n != nil && height(n) == hgt(n.syntaxBasicNode) && WFbasic(n.syntaxBasicNode) && errRT(n.syntaxBasicNode) && n.syntaxBasicNode.next != nil && !chainSingle(n)
+//@ spec WFfilterDef(n *syntaxFilterQualifier) bool = !RLok(n) && n != nil && height(n) == hgt(n.syntaxBasicNode) && WFbasic(n.syntaxBasicNode) && errRT(n.syntaxBasicNode) && n.query != nil && WFquery(n.query) && 0 <= qheight(n.query) && qheight(n.query) < height(n) && !chainSingle(n)
+//@ spec WFffuncDef(n *syntaxFilterFunction) bool = RLffuncDef(n) && n != nil && height(n) == hgt(n.syntaxBasicNode) && WFbasic(n.syntaxBasicNode) && errRT(n.syntaxBasicNode) && n.function != nil && (chainSingle(n) ==> singleNext(n.syntaxBasicNode))
+//@ spec WFafuncDef(n *syntaxAggregateFunction) bool = !RLok(n) && n != nil && height(n) == hgt(n.syntaxBasicNode) && WFbasic(n.syntaxBasicNode) && errRT(n.syntaxBasicNode) && n.function != nil && n.param != nil && WFnode(n.param) && height(n.param) < height(n) && (chainSingle(n) ==> singleNext(n.syntaxBasicNode))
 
 // WF of subscripts
 //@ spec WFindexDef(n *syntaxIndexSubscript) bool = n != nil
@@ -253,6 +261,26 @@ package jsonpath
 // syntaxNode.retrieve: thin contract (safety, ownership, ok/err shape)
 // ---------------------------------------------------------------------------------------
 
+// ---------------------------------------------------------------------------------------
+// C01 / C08: the result list of a node.  RLn(n, r, c) / RLv(n, r, c, i): length and i-th value of the list that
+// evaluating node n (with everything chained after it) on current value c under root r appends.  The equations that
+// define them per step kind are in the RL*Def macros (taken from the step-by-step definition of the property); RLok(n)
+// says the chain below n consists of step kinds that have such equations and delivers plain values (no accessors).
+// K*(b, ...): the continuation of basic node b applied to one selected value.
+//@ smt (declare-fun RLn (Val Val Val) Int)
+//@ smt (declare-fun RLv (Val Val Val Int) Val)
+//@ smt (declare-fun RLok (Val) Bool)
+//@ smt (assert (forall ((n Val) (r Val) (c Val)) (! (>= (RLn n r c) 0) :pattern ((RLn n r c)))))
+//@ spec Kn(b *syntaxBasicNode, r any, v any) int = b.next == nil ? 1 : RLn(b.next, r, v)
+//@ spec Kv(b *syntaxBasicNode, r any, v any, i int) any = b.next == nil ? v : RLv(b.next, r, v, i)
+//@ spec Kok(b *syntaxBasicNode) bool = b.next == nil ? !b.accessorMode : RLok(b.next)
+//@ spec appended(container *bufferContainer, n int) bool = len(container.result) == old(len(container.result)) + n
+//@ spec resAt(container *bufferContainer, i int) any = elemAt(container.result, old(len(container.result)) + i)
+//@ template resultList
+//@   ensures count: RLok(this) ==> appended(container, RLn(this, root, current))
+//@   ensures values: RLok(this) ==> (forall i {RLv(this, root, current, i)} :: 0 <= i && i < RLn(this, root, current) ==> resAt(container, i) == RLv(this, root, current, i))
+//@   ensures fails: RLok(this) && old(len(container.result)) == 0 ==> ((ret == nil) <==> RLn(this, root, current) > 0)
+
 //@ template retrieveFrame
 //@   requires container != nil && ownsBuf(container) && extVal(root)
 //@   modifies container.result, elems(container.result)
@@ -266,6 +294,7 @@ package jsonpath
 //@ interface syntaxNode.retrieve
 //@   requires WFnode(this) && extVal(current)
 //@   include retrieveFrame
+//@   include resultList
 //@   ensures single: chainSingle(this) ==> len(container.result) <= old(len(container.result)) + 1
 // Assumed, not proved (it is the functional specification of retrieval, C01): on an empty buffer, success
 // and the first result are functions Sel/First of (node, root, current).
@@ -291,29 +320,39 @@ package jsonpath
 //@   ensures escaped(arg0) && extVal(ret0) && ret0 == afRes(fn, old(A_Val[arr(arg0)]), off(arg0), len(arg0)) && ret1 == afErr(fn, old(A_Val[arr(arg0)]), off(arg0), len(arg0))
 
 //@ func (*syntaxBasicNode).retrieveAnyValueNext
-//@   props C03 C04 C05 C06 C20 C12 C13 C16
+//@   props C03 C04 C05 C06 C20 C12 C13 C16 C01
 //@   decreases 3*hgt(i)
 //@   requires WFbasic(i) && extVal(nextSrc)
 //@   include retrieveFrame
+//@   ensures count: Kok(i) ==> appended(container, Kn(i, root, nextSrc))
+//@   ensures values: Kok(i) ==> (forall k {Kv(i, root, nextSrc, k)} :: 0 <= k && k < Kn(i, root, nextSrc) ==> resAt(container, k) == Kv(i, root, nextSrc, k))
+//@   ensures fails: Kok(i) && old(len(container.result)) == 0 ==> ((ret == nil) <==> Kn(i, root, nextSrc) > 0)
 //@   ensures single: singleNext(i) ==> len(container.result) <= old(len(container.result)) + 1
 //@   ensures leafplain: i.next == nil && !i.accessorMode ==> ret == nil && len(container.result) == old(len(container.result)) + 1 && elemAt(container.result, old(len(container.result))) == nextSrc
 //@   ensures leafacc: i.next == nil && i.accessorMode ==> ret == nil && len(container.result) == old(len(container.result)) + 1 && isType(elemAt(container.result, old(len(container.result))), Accessor) && asType(elemAt(container.result, old(len(container.result))), Accessor).Set == nil && cloFn(asType(elemAt(container.result, old(len(container.result))), Accessor).Get) == fnconst("(*syntaxBasicNode).retrieveAnyValueNext$1") && C_Val[cloBind(asType(elemAt(container.result, old(len(container.result))), Accessor).Get, 0)] == nextSrc
 
 //@ func (*syntaxBasicNode).retrieveMapNext
-//@   props C03 C04 C05 C06 C20 C12 C13 C16
+//@   props C03 C04 C05 C06 C20 C12 C13 C16 C01
 //@   decreases 3*hgt(i)
 //@   requires WFbasic(i) && errRT(i)
 //@   include retrieveFrame
+//@   ensures count: Kok(i) && currentMap != nil && has(currentMap, key) ==> appended(container, Kn(i, root, currentMap[key]))
+//@   ensures values: Kok(i) && currentMap != nil && has(currentMap, key) ==> (forall k {Kv(i, root, currentMap[key], k)} :: 0 <= k && k < Kn(i, root, currentMap[key]) ==> resAt(container, k) == Kv(i, root, currentMap[key], k))
+//@   ensures fails: Kok(i) && currentMap != nil && has(currentMap, key) && old(len(container.result)) == 0 ==> ((ret == nil) <==> Kn(i, root, currentMap[key]) > 0)
+//@   ensures absent: !(currentMap != nil && has(currentMap, key)) ==> appended(container, 0) && ret != nil
 //@   ensures single: singleNext(i) ==> len(container.result) <= old(len(container.result)) + 1
 //@   ensures missing: !(currentMap != nil && has(currentMap, key)) ==> isType(ret, ErrorMemberNotExist) && asType(ret, ErrorMemberNotExist).errorBasicRuntime == i.errorRuntime
 //@   ensures leafplain: currentMap != nil && has(currentMap, key) && i.next == nil && !i.accessorMode ==> ret == nil && len(container.result) == old(len(container.result)) + 1 && elemAt(container.result, old(len(container.result))) == currentMap[key]
 //@   ensures leafacc: currentMap != nil && has(currentMap, key) && i.next == nil && i.accessorMode ==> ret == nil && len(container.result) == old(len(container.result)) + 1 && isType(elemAt(container.result, old(len(container.result))), Accessor) && accMapLoc(asType(elemAt(container.result, old(len(container.result))), Accessor), currentMap, key)
 
 //@ func (*syntaxBasicNode).retrieveListNext
-//@   props C03 C04 C05 C06 C20 C12 C13 C16
+//@   props C03 C04 C05 C06 C20 C12 C13 C16 C01
 //@   decreases 3*hgt(i)
 //@   requires WFbasic(i) && 0 <= index && index < len(currentList) && docArr(currentList)
 //@   include retrieveFrame
+//@   ensures count: Kok(i) ==> appended(container, Kn(i, root, currentList[index]))
+//@   ensures values: Kok(i) ==> (forall k {Kv(i, root, currentList[index], k)} :: 0 <= k && k < Kn(i, root, currentList[index]) ==> resAt(container, k) == Kv(i, root, currentList[index], k))
+//@   ensures fails: Kok(i) && old(len(container.result)) == 0 ==> ((ret == nil) <==> Kn(i, root, currentList[index]) > 0)
 //@   ensures single: singleNext(i) ==> len(container.result) <= old(len(container.result)) + 1
 //@   ensures leafplain: i.next == nil && !i.accessorMode ==> ret == nil && len(container.result) == old(len(container.result)) + 1 && elemAt(container.result, old(len(container.result))) == currentList[index]
 //@   ensures leafacc: i.next == nil && i.accessorMode ==> ret == nil && len(container.result) == old(len(container.result)) + 1 && isType(elemAt(container.result, old(len(container.result))), Accessor) && accListLoc(asType(elemAt(container.result, old(len(container.result))), Accessor), currentList, index)
@@ -367,24 +406,24 @@ package jsonpath
 //@   pure
 
 //@ func (*syntaxRootIdentifier).retrieve
-//@   props C03 C04 C05 C06 C20
+//@   props C01 C03 C04 C05 C06 C20
 //@   implements syntaxNode.retrieve
 //@   unfold WFnode(this) ==> WFrootDef(i)
 
 //@ func (*syntaxCurrentRootIdentifier).retrieve
-//@   props C03 C04 C05 C06 C20
+//@   props C01 C03 C04 C05 C06 C20
 //@   implements syntaxNode.retrieve
 //@   unfold WFnode(this) ==> WFcurrentDef(i)
 
 //@ func (*syntaxChildSingleIdentifier).retrieve
-//@   props C03 C04 C05 C06 C20 C15 C16
+//@   props C01 C03 C04 C05 C06 C20 C15 C16
 //@   implements syntaxNode.retrieve
 //@   unfold WFnode(this) ==> WFsingleDef(i)
 //@   ensures mismatch: !isType(current, map[string]interface{}) ==> mismatch(ret, i.errorRuntime, "object", current) && len(container.result) == old(len(container.result))
 //@   before retrieveMapNext#1 assert key: arg3 == i.identifier && arg2 == asType(current, map[string]interface{})
 
 //@ func (*syntaxFilterFunction).retrieve
-//@   props C03 C04 C05 C06 C20 C14
+//@   props C01 C03 C04 C05 C06 C20 C14
 //@   implements syntaxNode.retrieve
 //@   unfold WFnode(this) ==> WFffuncDef(f)
 //@   before func#1 assert arg: arg0 == current
@@ -803,8 +842,12 @@ package jsonpath
 //@   loop 1 invariant bufInv(container) && errInv(deepestTextLen, deepestError)
 
 //@ func Parse$2
-//@   props C03 C04 C05 C06 C20
+//@   props C01 C03 C04 C05 C06 C20
 //@   requires root != nil && WFnode(root) && extVal(src)
+// C01: the function Parse returns yields exactly the result list of the root node on (src, src), and fails exactly when it is empty
+//@   ensures exact: RLok(root) ==> ((ret1 == nil) <==> RLn(root, src, src) > 0) && (ret1 == nil ==> len(ret0) == RLn(root, src, src) && (forall i {RLv(root, src, src, i)} :: 0 <= i && i < RLn(root, src, src) ==> ret0[i] == RLv(root, src, src, i)))
+//@   loop 1 invariant copied: forall k {elemAt(result, k)} :: 0 <= k && k <= rangeindex1 ==> elemAt(result, k) == elemAt(container.result, k)
+//@   loop 1 invariant rl: off(result) == 0 && (RLok(root) ==> len(container.result) == RLn(root, src, src) && (forall i {RLv(root, src, src, i)} :: 0 <= i && i < RLn(root, src, src) ==> elemAt(container.result, i) == RLv(root, src, src, i)))
 //@   ensures ok: ret1 == nil ==> len(ret0) >= 1 && fresh(ret0)
 //@   ensures err: ret1 != nil ==> ret0 == nil && (isType(ret1, ErrorMemberNotExist) || isType(ret1, ErrorTypeUnmatched) || isType(ret1, ErrorFunctionFailed))
 //@   loop 1 invariant ownsBuf(container) && wf(result) && mine(result) && len(result) == len(container.result) && arr(result) != arr(container.result) && fresh(result)
